@@ -553,7 +553,7 @@ theorem pdraw_rest (R : Ro) (f : Nat) (φ : List (String × Int)) (χ : List (St
 
 /-- The expected bodies, parsed. -/
 def expB : Bodies :=
-  ⟨seqOf lminParts, seqOf lmaxParts, seqOf lindexParts, seqOf ldrawParts, seqOf ldownParts, seqOf lupParts, seqOf lhomeParts,
+  ⟨seqOf lminParts, seqOf lmaxParts, seqOf lnewParts, seqOf lindexParts, seqOf ldrawParts, seqOf ldownParts, seqOf lupParts, seqOf lhomeParts,
    seqOf lendParts, seqOf lpgdnParts, seqOf lpgupParts, seqOf lsetParts, seqOf pdrawParts, seqOf playParts, seqOf pdownParts,
    seqOf pupParts, seqOf bdrawParts⟩
 
